@@ -29,13 +29,36 @@ theorem obs5_foldl_refund (cs : List C05.Call) (s : C05.State) : obs5 (cs.foldl 
   | nil => rfl
   | cons c t ih => simp only [List.foldl_cons]; rw [ih]; rfl
 
-theorem obs5_cleanupCalls (s : C05.State) : obs5 (C05.cleanupCalls s) = obs5 s := by
-  unfold C05.cleanupCalls C05.cleanupCallsCore
-  simp only []
+theorem obs5_callPrim (c : C05.Call) (name : String) (s : C05.State) : obs5 (C05.callPrim c name s) = obs5 s := by
+  unfold C05.callPrim
+  repeat' split
+  all_goals rfl
+
+theorem obs5_foldl_callPrim (c : C05.Call) (l : List String) (s : C05.State) :
+    obs5 (l.foldl (fun s n => C05.callPrim c n s) s) = obs5 s := by
+  induction l generalizing s with
+  | nil => rfl
+  | cons n t ih => simp only [List.foldl_cons]; rw [ih, obs5_callPrim]
+
+theorem obs5_callStmt (c : C05.Call) (name : String) (s : C05.State) : obs5 (C05.callStmt c name s) = obs5 s := by
+  unfold C05.callStmt
   split
-  · show obs5 (List.foldl C05.refundCall _ _) = _
-    rw [obs5_foldl_refund]; rfl
-  · rw [obs5_foldl_refund]
+  · exact obs5_foldl_callPrim c _ s
+  · exact obs5_callPrim c name s
+
+/-- the interpreted settlement of one outgoing bridge-call record (any statement list) leaves the shared fields alone -/
+theorem obs5_callStmts (c : C05.Call) (body : List String) (s : C05.State) : obs5 (C05.callStmts c body s) = obs5 s := by
+  unfold C05.callStmts
+  induction body generalizing s with
+  | nil => rfl
+  | cons n t ih => simp only [List.foldl_cons]; rw [ih, obs5_callStmt]
+
+theorem obs5_cleanupCalls (s : C05.State) : obs5 (C05.cleanupCalls s) = obs5 s := by
+  unfold C05.cleanupCalls
+  generalize C05.expiredCalls (C05.heightOf FxVerif.Gen.C05.callCleanupSrc s) s.calls = cs
+  induction cs generalizing s with
+  | nil => rfl
+  | cons c t ih => simp only [List.foldl_cons]; rw [ih, obs5_callStmts]
 
 theorem obs5_cleanupBatches (s : C05.State) : obs5 (C05.cleanupBatches s) = obs5 s := rfl
 
@@ -508,6 +531,53 @@ def observes3 (key : C03.AnyClaim → η) (s : C03.AState η) (o : Nat) (c : C03
   !(C03.attFor key s c).observed && c.nonce == s.lastObserved + 1 &&
     C03.crosses s ((C03.attFor key s c).votes.map (·.1) ++ [o])
 
+theorem attFor_key (key : C03.AnyClaim → η) (s : C03.AState η) (c : C03.AnyClaim) :
+    (C03.attFor key s c).nonce = c.nonce ∧ (C03.attFor key s c).hash = key c := by
+  unfold C03.attFor C03.getAtt
+  cases hf : s.atts.find? (C03.sameKey c.nonce (key c)) with
+  | none => exact ⟨rfl, rfl⟩
+  | some a =>
+    have := List.find?_some hf
+    simp only [C03.sameKey, Bool.and_eq_true, beq_iff_eq] at this
+    exact ⟨this.1, this.2⟩
+
+/-- with the lookup table found in the source (own key, else a fresh attestation) `Attest` takes the attestation stored under the
+voter's key; nothing is taken from another key -/
+theorem lookup_eval (key : C03.AnyClaim → η) (le : η → η → Bool) (s : C03.AState η) (c : C03.AnyClaim) :
+    C03.lookupWith le key s c FxVerif.Gen.C03.attestLookup = (C03.attFor key s c, none) := by
+  simp only [FxVerif.Gen.C03.attestLookup, C03.lookupWith, C03.attFor]
+  cases C03.getAtt s.atts c.nonce (key c) <;> rfl
+
+theorem baseWith_eval (key : C03.AnyClaim → η) (le : η → η → Bool) (s : C03.AState η) (c : C03.AnyClaim) :
+    C03.baseWith FxVerif.Gen.C03.attestLookup le key s c = s := by
+  unfold C03.baseWith; rw [lookup_eval]
+
+theorem votedAttWith_eval (key : C03.AnyClaim → η) (le : η → η → Bool) (s : C03.AState η) (o : Nat) (c : C03.AnyClaim) :
+    C03.votedAttWith FxVerif.Gen.C03.attestLookup le key s o c = C03.votedAtt key s o c := by
+  obtain ⟨h1, h2⟩ := attFor_key key s c
+  unfold C03.votedAttWith C03.votedAtt C03.withVote
+  rw [lookup_eval]
+  simp only []
+  generalize C03.attFor key s c = a at h1 h2
+  cases a
+  simp only at h1 h2
+  subst h1; subst h2; rfl
+
+/-- `vote` in the form this file reasons about: the attestation under the voter's own key, the call sites of the source -/
+theorem vote_unfold (key : C03.AnyClaim → η) (le : η → η → Bool) (s : C03.AState η) (o : Nat) (c : C03.AnyClaim) (hp : Bool) :
+    C03.vote key le s o c hp =
+      if !C03.logicCheck s c then (s, .logicCheck)
+      else if c.nonce != C03.lastNonceOf s o + 1 then (s, .nonContiguous)
+      else
+        match C03.hit FxVerif.Gen.C03.attestTrySites le (C03.afterVote s (C03.votedAtt key s o c)) (C03.votedAtt key s o c) c with
+        | some (a, ch) =>
+          if hp then (s, .panic)
+          else (C03.setLast (C03.observe key (C03.afterVote s (C03.votedAtt key s o c)) a ch) o c.nonce, .ok)
+        | none => (C03.setLast (C03.afterVote s (C03.votedAtt key s o c)) o c.nonce, .ok) := by
+  unfold C03.vote C03.voteWith
+  rw [baseWith_eval, votedAttWith_eval]
+  rfl
+
 theorem hit_eval (key : C03.AnyClaim → η) (le : η → η → Bool) (s : C03.AState η) (o : Nat) (c : C03.AnyClaim) :
     C03.hit FxVerif.Gen.C03.attestTrySites le (C03.afterVote s (C03.votedAtt key s o c)) (C03.votedAtt key s o c) c =
       if observes3 key s o c then some (C03.votedAtt key s o c, c) else none := by
@@ -609,16 +679,6 @@ variable {η : Type} [DecidableEq η]
 theorem getAtt_setAtt_self (l : List (C03.Att η)) (a : C03.Att η) : C03.getAtt (C03.setAtt l a) a.nonce a.hash = some a := by
   simp [C03.getAtt, C03.setAtt, C03.sameKey, List.find?]
 
-theorem attFor_key (key : C03.AnyClaim → η) (s : C03.AState η) (c : C03.AnyClaim) :
-    (C03.attFor key s c).nonce = c.nonce ∧ (C03.attFor key s c).hash = key c := by
-  unfold C03.attFor C03.getAtt
-  cases hf : s.atts.find? (C03.sameKey c.nonce (key c)) with
-  | none => exact ⟨rfl, rfl⟩
-  | some a =>
-    have := List.find?_some hf
-    simp only [C03.sameKey, Bool.and_eq_true, beq_iff_eq] at this
-    exact ⟨this.1, this.2⟩
-
 /-- the attestation the vote was filed under, after an accepted `vote` of the C03 model -/
 theorem vote_voted_att (key : C03.AnyClaim → η) (le : η → η → Bool) (s : C03.AState η) (o : Nat) (c : C03.AnyClaim) (hp : Bool)
     (hok : (C03.vote key le s o c hp).2 = .ok) :
@@ -630,7 +690,7 @@ theorem vote_voted_att (key : C03.AnyClaim → η) (le : η → η → Bool) (s 
   have hvk2 : (C03.votedAtt key s o c).hash = key c := hk2
   have hvv : (C03.votedAtt key s o c).votes.map (·.1) = (C03.attFor key s c).votes.map (·.1) ++ [o] := by
     simp [C03.votedAtt, C03.withVote]
-  unfold C03.vote C03.voteWith at hok ⊢
+  rw [vote_unfold] at hok ⊢
   split at hok
   · cases hok
   · split at hok
